@@ -86,6 +86,7 @@ func devCmd(args []string) {
 	cxs := fs.Bool("cx", false, "search counterexamples on the real code for failed obligations")
 	fs.Parse(args)
 	prop := fs.Arg(0)
+	useCache = os.Getenv("GOVC_CACHE") != ""
 	start := time.Now()
 	w, err := loadWorld(repoDir)
 	if err != nil {
